@@ -104,7 +104,8 @@ def generate(seed, prop):
         if rng.random() < 0.15 and k != "process":
             w[k] = 0.0
     names = list(w)
-    n_ops = rng.randint(2, 12)
+    from ..core import deep
+    n_ops = rng.randint(2, 24 if deep() else 12)
     ops = []
     for _ in range(n_ops):
         name = rng.choices(names, [w[k] for k in names])[0]
@@ -298,7 +299,10 @@ def oracle_c03(ctx, st, op, records, settings, spec, res, exc):
         ok_any = False
         for kept in admissible:
             sub = [copy.deepcopy(records[i]) for i in kept]
-            ref = _process(H, sub, make_settings(H, spec, fft_n=n))
+            try:
+                ref = _process(H, sub, make_settings(H, spec, fft_n=n))
+            except ValueError:
+                continue                       # this candidate subset is refused by the result validation
             if close(ref.amplitude, amp, 1e-10):
                 ok_any = True
         ctx.check(ok_any, "kept_subset_differs",
@@ -320,6 +324,9 @@ def oracle_c03(ctx, st, op, records, settings, spec, res, exc):
         bad = None
         for r, i in enumerate(kept):
             solo = solo_rows(st, records[i], spec, n)
+            if solo is None:
+                bad = ("rows", r, i, float("nan"))
+                break
             for (label, a), (_, s_) in zip(rows, solo):
                 if not close(a[r], s_[0], 1e-10):
                     bad = (label, r, i, float(np.max(np.abs(a[r] - s_[0]) / np.maximum(np.abs(s_[0]), 1e-300))))
@@ -346,8 +353,11 @@ def solo_rows(st, record, spec, n):
            record.ns.dt_in_seconds, record.degrees_from_north,
            canon({k: v for k, v in spec.items() if k not in ("policy", "fft_n")}), n)
     if key not in st.solo_cache:
-        res = _process(H, [copy.deepcopy(record)], make_settings(H, spec, fft_n=n))
-        st.solo_cache[key] = rows_of(H, res)
+        try:
+            res = _process(H, [copy.deepcopy(record)], make_settings(H, spec, fft_n=n))
+            st.solo_cache[key] = rows_of(H, res)
+        except ValueError:
+            st.solo_cache[key] = None          # the solo result is refused by the result validation
     return st.solo_cache[key]
 
 
